@@ -183,6 +183,74 @@ func VP_C20_Joined() {
 	vp.Reach("end")
 }
 
+// vpStubBounds is an arbitrary bounds collider for a FilteredObject: whether
+// and where a ray meets it are uninterpreted (for a box it is the entry
+// distance from outside but the exit distance from inside); the harness
+// constrains it to be hit whenever the filtered object is.
+type vpStubBounds struct {
+	name     string
+	min, max model3d.Coord3D
+}
+
+func (b *vpStubBounds) Min() model3d.Coord3D { return b.min }
+func (b *vpStubBounds) Max() model3d.Coord3D { return b.max }
+func (b *vpStubBounds) RayCollisions(r *model3d.Ray, f func(model3d.RayCollision)) int {
+	panic("not used")
+}
+func (b *vpStubBounds) SphereCollision(c model3d.Coord3D, r float64) bool { panic("not used") }
+func (b *vpStubBounds) FirstRayCollision(r *model3d.Ray) (model3d.RayCollision, bool) {
+	args := []float64{r.Origin.X, r.Origin.Y, r.Origin.Z, r.Direction.X, r.Direction.Y, r.Direction.Z}
+	sc := vp.MemoFloat(b.name+".scale", args...)
+	vp.Assume(sc >= 0)
+	return model3d.RayCollision{Scale: sc}, vp.MemoBool(b.name+".hit", args...)
+}
+
+// VP_C20_FilteredJoined: the shape BVHToObject builds - a JoinedObject whose
+// children are leaves and bounds-filtered branches - reports the nearest hit
+// among all leaves for every ray. Leaves are arbitrary objects; each
+// branch's bounds collider is arbitrary except that it is hit whenever a
+// leaf below it is (the FilteredObject contract).
+func VP_C20_FilteredJoined() {
+	a, b, c := vpNewStubObject("A", 0), vpNewStubObject("B", 1), vpNewStubObject("C", 2)
+	ray := &model3d.Ray{Origin: vpPoint("o"), Direction: vpPoint("d")}
+	leaves := []*vpStubObject{a, b, c}
+	var scales [3]float64
+	var hits [3]bool
+	for i, l := range leaves {
+		rc, _, h := l.Cast(ray)
+		scales[i], hits[i] = rc.Scale, h
+	}
+	filtered := func(name string, below []int, objs ...Object) Object {
+		bd := &vpStubBounds{name: name}
+		_, bh := bd.FirstRayCollision(ray)
+		for _, i := range below {
+			vp.Assume(vp.Implies(hits[i], bh))
+		}
+		return &FilteredObject{Object: JoinedObject(objs), Bounds: bd}
+	}
+	var obj Object
+	switch vp.Param("shape") {
+	case 0: // {A, [B, C]}
+		obj = JoinedObject{a, filtered("F", []int{1, 2}, b, c)}
+	case 1: // [[A, B], [C]]
+		obj = filtered("R", []int{0, 1, 2}, filtered("F", []int{0, 1}, a, b), filtered("G", []int{2}, c))
+	case 2: // {[A], [B], C}
+		obj = JoinedObject{filtered("F", []int{0}, a), filtered("G", []int{1}, b), c}
+	}
+	rc, _, found := obj.Cast(ray)
+	any := false
+	for i := range leaves {
+		any = vp.Or(any, hits[i])
+		vp.Assert(vp.Implies(vp.And(found, hits[i]), rc.Scale <= scales[i]), "BVH-shaped object reports the nearest hit among all leaves")
+	}
+	vp.Assert(found == any, "BVH-shaped object finds a hit iff some leaf is hit")
+	if found {
+		idx := rc.Extra.(int)
+		vp.Assert(vp.And(hits[idx], scales[idx] == rc.Scale), "the reported collision is one of the leaves' collisions")
+	}
+	vp.Reach("end")
+}
+
 // VP_C20_Transformed: a translated / rotated / scaled object is hit exactly
 // where the transformed original is: the wrapped object is asked about the
 // pre-image ray, the hit keeps its parameter, the normal is the unit image.
@@ -211,6 +279,24 @@ func VP_C20_Transformed() {
 		obj = MatrixMultiply(inner, m)
 		fwd = func(c model3d.Coord3D) model3d.Coord3D { return m.MulColumn(c) }
 		lin = fwd
+	case 3:
+		// two nested matrix transforms that do not commute (a quarter turn
+		// about x inside a symbolic anisotropic scaling followed by a quarter
+		// turn about z): the composite is outer*inner
+		a := &model3d.Matrix3{1, 0, 0, 0, 0, 1, 0, -1, 0}
+		sx, sy := vp.Float64("sx"), vp.Float64("sy")
+		vp.Assume(vp.And(sx > 0, sy > 0))
+		b := &model3d.Matrix3{0, sx, 0, -sy, 0, 0, 0, 0, 1}
+		obj = MatrixMultiply(MatrixMultiply(inner, a), b)
+		fwd = func(c model3d.Coord3D) model3d.Coord3D { return b.MulColumn(a.MulColumn(c)) }
+		lin = fwd
+	case 4:
+		// translation inside a rotation inside a translation
+		off1, off2 := vpPoint("off1"), vpPoint("off2")
+		m := model3d.NewMatrix3Rotation(model3d.Z(1), vp.Float64("theta"))
+		obj = Translate(MatrixMultiply(Translate(inner, off1), m), off2)
+		fwd = func(c model3d.Coord3D) model3d.Coord3D { return m.MulColumn(c.Add(off1)).Add(off2) }
+		lin = func(c model3d.Coord3D) model3d.Coord3D { return m.MulColumn(c) }
 	}
 	outer := &model3d.Ray{Origin: fwd(o), Direction: lin(d)}
 	rc, _, hit := obj.Cast(outer)
